@@ -160,7 +160,7 @@ def ops_from_json(data):
             out.append((t, tuple(op[1]), Spec.from_json(op[2])) + tuple(op[3:]))
         elif t == 'ntext':
             out.append((t, tuple(op[1]), [Spec.from_json(s) for s in op[2]]))
-        elif t == 'ndel':
+        elif t in ('ndel', 'decl'):
             out.append((t, tuple(op[1]), op[2]))
         else:
             out.append(tuple(op))
@@ -210,6 +210,8 @@ def op_line(op):
         return 'ntext %s %s' % (path(op[1]), specs(op[2]))
     if t == 'mode':
         return 'mode %d' % op[1]
+    if t == 'decl':
+        return None         # not an operation of the model
     raise ValueError(op)
 
 
@@ -403,8 +405,13 @@ class Walker:
             return ('nsset', r.choice(self.PRE), r.choice(self.URI + ['']) if r.random() < 0.9 else 'u')
         if x < 0.73:
             return ('nsdel', r.choice(self.PRE))
-        if x < 0.76:
+        if x < 0.755:
             return ('mode', int(r.random() < 0.6))
+        if x < 0.80:
+            styled = [p for p, rule, _ in st.walk() if rule.type in (rule.STYLE_RULE, rule.PAGE_RULE, rule.FONT_FACE_RULE,
+                                                                      rule.MARGIN_RULE)]
+            if styled:
+                return ('decl', r.choice(styled), r.randint(0, 7))
         if not conts:
             return ('add', self.spec(r.choice(['media', 'page']), declared), 0)
         path, c = r.choice(conts)
@@ -530,6 +537,28 @@ class HistState:
             elif t == 'mode':
                 cssutils.log.raiseExceptions = bool(op[1])
                 r = None
+            elif t == 'decl':
+                # edits of the declaration block of the rule at `path` (implementation only: the structure of the
+                # sheet does not change, the model is not told; the oracle checks style.parentRule / property.parent)
+                rule = self.at(op[1])
+                v = op[2]
+                if v == 0:
+                    rule.style = css.CSSStyleDeclaration(cssText='top: 0; left: 1')
+                elif v == 1:
+                    rule.style.cssText = 'top: 1; color: red'
+                elif v == 2:
+                    rule.style.setProperty('color', 'green', 'important')
+                elif v == 3:
+                    rule.style['margin-top'] = '2px'
+                elif v == 4:
+                    rule.style.removeProperty('top')
+                elif v == 5:
+                    rule.style = 'bottom: 3px'
+                elif v == 6:
+                    rule.style.setProperty(css.Property('right', '4px'))
+                else:
+                    rule.style.cssText = 'top: ; x'      # refused (or partly ignored)
+                r = None
             else:
                 raise ValueError(op)
         except xml.dom.DOMException as e:
@@ -638,15 +667,16 @@ class Env:
                 if op[0] == 'mode':
                     mode = bool(op[1])
                 d = st.dump()
-                lines.append(op_line(op))
-                expect.append(out + ' | ' + d)
+                if op_line(op) is not None:
+                    lines.append(op_line(op))
+                    expect.append(out + ' | ' + d)
                 self.oracle.after(st, op, out, pre, ops[:i + 1], raising)
             b = self.oracle.end(st, ops, raising)
             lines.append('reparse')
             expect.append(None if b is None else 'R ' + b)
         self.cssutils.log.raiseExceptions = self.saved_raise
         self.ctx.case(key=(raising, tuple(op_key(o) for o in ops)), nontrivial=len(ops) > 1 or len(st.sheet.cssRules) > 1,
-                      kind=kind, sample={'ops': [op_line(o) for o in ops], 'raising': raising, 'final': expect[-2]})
+                      kind=kind, sample={'ops': [op_line(o) or 'decl' for o in ops], 'raising': raising, 'final': expect[-2]})
         for op in ops:
             self.ctx.count('op:' + op[0])
         self.pending.append(([op_to_json(o) for o in ops], raising, lines, expect))
@@ -679,8 +709,9 @@ class Env:
                 if op[0] == 'mode':
                     mode = bool(op[1])
                 d = st.dump()
-                lines.append(op_line(op))
-                expect.append(out + ' | ' + d)
+                if op_line(op) is not None:
+                    lines.append(op_line(op))
+                    expect.append(out + ' | ' + d)
                 self.oracle.after(st, op, out, pre, ops, raising)
                 if i % 10 == 9:
                     self.oracle.end(st, ops, raising)
